@@ -235,7 +235,7 @@ class MirDump:
         return f.name == want
 
     def fn_by_suffix(self, suffix):
-        c = [f for f in self.fns.values() if f.path.endswith(suffix)]
+        c = [f for f in self.fns.values() if f.path == suffix or f.path.endswith('::' + suffix) or (f.impl_at is None and suffix.endswith('::' + f.path))]
         if len(c) != 1: raise KeyError('%d functions match %r' % (len(c), suffix))
         return c[0]
 
